@@ -638,6 +638,7 @@ func main() {
 	// O2/O3 at the size limits of the evaluator (review 2, N1): a text literal is a value of its own length, so it is
 	// written out whatever its length; a concatenation may refuse a result above types.MaxTextLength with an ERROR, but
 	// a template never silently loses a value
+	llClass := "literal-faithful:value-at-size-limit-lost"
 	longLiteral := func(name string, parts []string, mayRefuse bool) {
 		res.OracleChecks++
 		quoted := make([]string, len(parts))
@@ -654,7 +655,7 @@ func main() {
 			res.Dist("O2:long-literal-refused-with-error")
 			return
 		}
-		res.Fail("literal-faithful:value-at-size-limit-lost", map[string]any{"case": name},
+		res.Fail(llClass, map[string]any{"case": name},
 			fmt.Sprintf("%s: Template(`x @(...) y`) gave %d bytes (%q...) err=%v panic=%q, the statement prescribes the %d bytes of the literal(s) between `x ` and ` y`",
 				name, len(got), ellipsis(got, 12), hasErr, p, len(want)))
 	}
@@ -671,6 +672,7 @@ func main() {
 		// brackets INSIDE a literal are characters, not nesting: as many as the parser's nesting limit and more (seeded
 		// wave 5: a pre-scan of the raw text counted them)
 		d := excellent.MaxParseDepth
+		llClass = "literal-faithful:brackets-in-literal-taken-for-nesting"
 		for _, br := range []string{"(", "[", ")", "]", "([", "(\"", "\\("} {
 			for _, n := range []int{d - 1, d, d + 1, 2*d + 7} {
 				longLiteral(fmt.Sprintf("one literal of %d x %q", n, br), []string{strings.Repeat(br, n)}, false)
